@@ -6,7 +6,8 @@ usage: tools/selftest.py [--tests] [--runs N] [id-or-property ...]
 """
 import json, glob, os, subprocess, sys, time
 
-REPO = "/repo"
+REPO = os.environ.get("VERIF_REPO", "/repo")
+ROOT = os.path.dirname(os.path.dirname(os.path.abspath(__file__)))
 ENV = dict(os.environ, GOFLAGS="-mod=mod", GOPROXY="off", TZ="UTC")
 
 def sh(cmd, cwd=None, timeout=3600):
@@ -28,7 +29,7 @@ def main():
     if not clean():
         print("refusing: /repo working tree is not clean"); sys.exit(2)
     muts = []
-    for f in sorted(glob.glob("/verif/mutants/*.json")):
+    for f in sorted(glob.glob(ROOT + "/mutants/*.json")):
         for m in json.load(open(f)):
             if not args or m["id"] in args or m["property"] in args:
                 muts.append(m)
@@ -53,7 +54,7 @@ def main():
             caught = 0
             last = ""
             for i in range(runs):
-                rc, out = sh("./check %s quick" % m["property"], "/verif")
+                rc, out = sh("./check %s quick" % m["property"], ROOT)
                 last = out
                 if rc == 1 and "VIOLATION property=%s" % m["property"] in out:
                     caught += 1
